@@ -640,3 +640,104 @@ def wrap_1(ctx, rep, modules=('parso/python/diff.py', 'parso/python/tree.py', 'p
     _RESOLVE[0] = None
     rep.stat('wrap1_chains', n_chains)
     rep.minimum('WRAP-1', 2)
+
+
+# ---------------------------------------------------------------------------------------------------------------
+# BRK-1  a loop over the children of a node does not stop at a child the grammar allows in the middle
+_BRK1_EXAMPLE = '''
+class WithStmt:
+    type = 'with_stmt'
+
+    def get_defined_names(self):
+        names = []
+        for with_item in self.children[1::2]:
+            if with_item.type != 'with_item':
+                break
+            names += with_item.children[2]
+        return names
+'''
+
+
+def _brk1_loops(cls_type, fn_node):
+    """[(for node, slice, variable, wanted type)] - `for X in self.children[a:b:c]:` whose body holds, at its top level,
+    `if X.type != 'K': break`."""
+    out = []
+    for n in ast.walk(fn_node):
+        if not (isinstance(n, ast.For) and isinstance(n.target, ast.Name) and isinstance(n.iter, ast.Subscript)
+                and isinstance(n.iter.slice, ast.Slice) and norm(n.iter.value).endswith('.children')
+                and norm(n.iter.value).split('.')[0] == 'self'):
+            continue
+        sl = n.iter.slice
+        parts = []
+        for p in (sl.lower, sl.upper, sl.step):
+            if p is None:
+                parts.append(None)
+            else:
+                c = _const_index(p)
+                if c is None:
+                    parts = None
+                    break
+                parts.append(c)
+        if parts is None:
+            continue
+        for st in n.body:
+            if isinstance(st, ast.If) and len(st.body) == 1 and isinstance(st.body[0], ast.Break) and not st.orelse \
+                    and isinstance(st.test, ast.Compare) and len(st.test.ops) == 1 and isinstance(st.test.ops[0], ast.NotEq) \
+                    and norm(st.test.left) == '%s.type' % n.target.id and isinstance(st.test.comparators[0], ast.Constant) \
+                    and isinstance(st.test.comparators[0].value, str):
+                out.append((n, slice(*parts), n.target.id, st.test.comparators[0].value))
+    return out
+
+
+def _brk1_witness(ctx, node_type, sl, wanted, maxlen=8):
+    """A sentence of rule `node_type` (some grammar) in which, within the slice, a child that need not be of type `wanted`
+    comes before a child that can be: the `break` then skips the later one.  None if there is none."""
+    from .gr import shape_appearance
+    for g in ctx.grammars:
+        if node_type not in g.nts:
+            continue
+        app = shape_appearance(g)
+        for w in sorted(node_words(g, node_type, maxlen), key=lambda w: (len(w), w)):
+            part = list(w)[sl]
+            stop = None
+            for i, sym in enumerate(part):
+                kinds = app[sym] if sym in g.nts else {sym}
+                if stop is None and kinds != {wanted}:
+                    stop = i
+                elif stop is not None and symbol_can_be(g, sym, ('type', wanted)):
+                    return '%s: %s  (the loop stops at `%s`, which may be %s, before `%s`)' % (
+                        g.name if hasattr(g, 'name') else 'grammar', ' '.join(w), part[stop],
+                        '/'.join(sorted(k for k in (app[part[stop]] if part[stop] in g.nts else {part[stop]}) if k != wanted)[:3]), sym)
+    return None
+
+
+def brk_1(ctx, rep, modules=('parso/python/tree.py',)):
+    rep.rule('BRK-1', 'a loop over a constant slice of the children of a node that stops (`break`) at the first child whose type '
+                      'is not K does not lose a later child of type K: in every short sentence of the node\'s rule, within the '
+                      'slice, no child that can be K follows a child that need not be K (single-child collapse applied: an '
+                      'item without its optional tail appears as a bare expression)')
+    # built-in example: the matcher and the grammar model are exercised on every run
+    ex = ast.parse(_BRK1_EXAMPLE).body[0]
+    loops = _brk1_loops('with_stmt', ex)
+    if not loops or _brk1_witness(ctx, 'with_stmt', loops[0][1], loops[0][3]) is None:
+        raise AnalysisError('BRK-1: the matcher does not recognise its built-in example')
+    n = 0
+    for rel in modules:
+        mod = ctx.prog.mod(rel)
+        for cls in mod.classes.values():
+            tv = None
+            for k in (cls.mro or [cls]):
+                a = getattr(k, 'attrs', {}).get('type') if not isinstance(k, str) else None
+                if isinstance(a, ast.Constant) and isinstance(a.value, str):
+                    tv = a.value
+                    break
+            if tv is None:
+                continue
+            for m in cls.methods.values():
+                for loop, sl, var, wanted in _brk1_loops(tv, m.node):
+                    n += 1
+                    w = _brk1_witness(ctx, tv, sl, wanted)
+                    rep.ob('BRK-1', rel, m.qual, head(loop), w is None,
+                           'the loop stops at the first child that is not a %s, but the grammar allows a %s after such a child: %s'
+                           % (wanted, wanted, w), witness=w)
+    rep.stat('brk1_loops', n)
